@@ -190,7 +190,9 @@ def gen_parser_method():
     pre = "use konst::Parser;\nconst C: &str = \"a\";\n"
     for m in ("strip_prefix", "strip_suffix", "find_skip", "rfind_skip"):
         good = pre + "fn f(mut p: Parser<'_>) -> u8 { konst::parser_method!{p, %s; \"a\" => 1, _ => 0} }\n" % m
-        for nm, pat in (("const ident", "C"), ("format!", "format!(\"a\")"), ("byte string", "b\"a\""), ("char literal", "'a'"), ("integer", "1"), ("str expression", "&*\"a\""), ("parenthesised literal", "(\"a\")"), ("byte", "b'a'"), ("literal | const", "\"b\" | C"), ("env!-like macro", "file!()")):
+        for nm, pat in (("const ident", "C"), ("format!", "format!(\"a\")"), ("byte string", "b\"a\""), ("char literal", "'a'"), ("integer", "1"), ("str expression", "&*\"a\""), ("parenthesised literal", "(\"a\")"), ("byte", "b'a'"), ("literal | const", "\"b\" | C"), ("env!-like macro", "file!()"),
+                        ("concat! with a const inside", "concat!(\"a\", C)"), ("concat! with a const first", "concat!(C, \"a\")"), ("concat! with only a const", "concat!(C)"), ("nested concat! with a const", "concat!(\"a\", concat!(\"b\", C))"),
+                        ("concat! with an expression", "concat!(\"a\", {\"b\"})"), ("concat! | const", "concat!(\"a\") | C")):
             cases.append(Case("G8-parser_method", "%s non-literal pattern: %s" % (m, nm), pre + "fn f(mut p: Parser<'_>) -> u8 { konst::parser_method!{p, %s; %s => 1, _ => 0} }\n" % (m, pat), good))
         cases.append(Case("G8-parser_method", "%s missing default branch" % m, pre + "fn f(mut p: Parser<'_>) -> u8 { konst::parser_method!{p, %s; \"a\" => 1} }\n" % m, good))
         cases.append(Case("G8-parser_method", "%s missing default branch (two arms)" % m, pre + "fn f(mut p: Parser<'_>) -> u8 { konst::parser_method!{p, %s; \"a\" => 1, \"b\" => 2} }\n" % m, good))
@@ -198,7 +200,7 @@ def gen_parser_method():
         cases.append(Case("G8-parser_method", "%s no branches" % m, pre + "fn f(mut p: Parser<'_>) { konst::parser_method!{p, %s; } }\n" % m, good))
     for m in ("trim_start_matches", "trim_end_matches"):
         good = pre + "fn f(mut p: Parser<'_>) { konst::parser_method!{p, %s; \"a\" | \"b\"} }\n" % m
-        for nm, pat in (("const ident", "C"), ("format!", "format!(\"a\")"), ("byte string", "b\"a\""), ("char literal", "'a'"), ("integer", "1"), ("literal | const", "\"b\" | C")):
+        for nm, pat in (("const ident", "C"), ("format!", "format!(\"a\")"), ("byte string", "b\"a\""), ("char literal", "'a'"), ("integer", "1"), ("literal | const", "\"b\" | C"), ("concat! with a const inside", "concat!(\"a\", C)"), ("concat! with only a const", "concat!(C)")):
             cases.append(Case("G8-parser_method", "%s non-literal pattern: %s" % (m, nm), pre + "fn f(mut p: Parser<'_>) { konst::parser_method!{p, %s; %s} }\n" % (m, pat), good))
     cases.append(Case("G8-parser_method", "unknown method name", pre + "fn f(mut p: Parser<'_>) -> u8 { konst::parser_method!{p, split; \"a\" => 1, _ => 0} }\n", pre + "fn f(mut p: Parser<'_>) -> u8 { konst::parser_method!{p, find_skip; \"a\" => 1, _ => 0} }\n"))
     return cases
